@@ -1,3 +1,155 @@
-import EdbVerif.Lemmas.PoolTrans3
+/-
+C16 — every connection request is eventually served.
+
+Same model as C15 (`Model/Pool.lean`; a transition = one atomic section of pool.py, floats and
+the clock = the environment `env`).  What is proved here is the SAFETY core of the property
+and local progress; the liveness statement itself is FALSE of the model — and of the real
+pool — already in fault-free fair runs: see the two counterexample theorems at the end (the
+same schedules hang the real `Pool` under plain asyncio: notes/C16-repro-1.py, -2.py, and
+corpus/C16/hang-1-*, hang-2-*; a third class, Mode D, depends on float-calibrated quotas and
+is only demonstrated on the real pool: notes/C16-repro-3.py).
+
+Scope: histories without `prune_inactive_connections` / `prune_all_connections` events
+(`Prims.NoPruneEv`); the per-step oracle of the harness checks the same clauses on the real
+pool for all histories.
+
+Reading guide (`Model/PoolSpec.lean`): `Inv₂ s` = for every block, if somebody sleeps in its
+queue then `|stack| ≤ #woken-and-not-yet-resumed`; `InvQ s` = `Inv₂` + the queue of a block
+lists exactly its sleeping waiters, every sleeping waiter is in the queue of its block,
+`conn_waiters_num` counts the tasks inside `try_acquire`, ids are unique, a request is
+either waiting or holding.
+-/
+import EdbVerif.Lemmas.PoolC16
+
 namespace EdbVerif.C16
+open EdbVerif.Pool
+
+/-- No lost wake-up, for all histories (without pruning events), all capacities, any number
+    of databases, every environment: an idle connection never sits in a block while all of
+    the block's waiters sleep. -/
+theorem no_lost_wakeup (max : Nat) (evs : List (Env × Ev)) (hev : ∀ x ∈ evs, Prims.NoPruneEv x.2) :
+    Inv₂ (run (init max) evs) :=
+  (runQ max evs hev).2.inv2
+
+/-- The whole waiter bookkeeping is invariant (and so is C15's `InvNum`, jointly). -/
+theorem waiters_consistent (max : Nat) (evs : List (Env × Ev)) (hev : ∀ x ∈ evs, Prims.NoPruneEv x.2) :
+    InvNum (run (init max) evs) ∧ InvQ (run (init max) evs) :=
+  runQ max evs hev
+
+/-- … as a one-step statement: preserved by every transition for every environment choice. -/
+theorem waiters_step (s : State) (env : Env) (e : Ev) (h : InvNum s ∧ InvQ s) (he : Prims.NoPruneEv e) :
+    InvNum (step s env e) ∧ InvQ (step s env e) :=
+  stepQ h env e he
+
+/-- `abort_all`: when a connect failure exhausts the retries (or is 3D000, "database does not
+    exist"), `_connect` empties the queue of the block and every sleeping waiter of the block
+    gets the error. -/
+theorem abort_all (s : State) (h : InvNum s ∧ InvQ s) (u : Nat) (b : Block) (hb : s.find u = some b)
+    (is3D : Bool) (hex : is3D = true ∨ b.failures ≥ RETRIES) :
+    (∀ b', (connFail s u is3D).find u = some b' → b'.queue = []) ∧
+    (∀ w ∈ s.waiters, w.block = u → w.st = .queued →
+      ({ w with st := .aborted } : Waiter) ∈ (connFail s u is3D).waiters) := by
+  rw [connFail_exhausted hb is3D hex]
+  have hc := (primsQ.connFailCore
+    (fun b => if is3D && b.failures + 1 ≤ RETRIES then RETRIES + 1 else b.failures + 1) h hb).1
+  have hbm := State.find_some hb
+  have hf : (connFailCore s u is3D).find u = some
+      { b with pending := b.pending - 1,
+               failures := if is3D && b.failures + 1 ≤ RETRIES then RETRIES + 1 else b.failures + 1 } := by
+    unfold connFailCore
+    have := State.find_mod (s := ({ s with cur := s.cur - 1 } : State)) u u
+      (fun b => { b with pending := b.pending - 1,
+                         failures := if is3D && b.failures + 1 ≤ RETRIES then RETRIES + 1 else b.failures + 1 })
+      (fun _ => rfl)
+    rw [this]
+    show Option.map _ (s.find u) = _
+    rw [hb]; simp [hbm.2]
+  exact abortWaiters_spec hc.1.uids hc.2 hf
+
+/-- … and a request that got the error leaves `acquire` with it: it is no longer waiting and
+    holds nothing. -/
+theorem aborted_request_completes (s : State) (id : Nat) (w : Waiter) (b : Block)
+    (hfind : s.waiters.find? (·.id == id) = some w) (hb : s.find w.block = some b)
+    (hst : w.st = .aborted) (hp : w.prune = false) :
+    (∀ x ∈ (resume s id).waiters, x.id ≠ id) ∧ (resume s id).holders = s.holders ∧
+    (resume s id).err = s.err :=
+  resume_aborted hfind hb hst hp
+
+/-- `woken_empty`: a woken waiter that finds the stack empty re-enters at the FRONT of the
+    queue, and `conn_waiters_num` is unchanged. -/
+theorem woken_empty (s : State) (id : Nat) (w : Waiter) (b : Block)
+    (hfind : s.waiters.find? (·.id == id) = some w) (hb : s.find w.block = some b)
+    (hst : w.st = .woken) (hp : w.prune = false) (he : b.stack = []) (ha : 1 ≤ w.attempts) :
+    ∃ b', (resume s id).find w.block = some b' ∧ b'.queue = id :: b.queue ∧
+      b'.waitersNum = b.waitersNum ∧ b'.stack = [] ∧
+      (⟨id, w.block, .queued, w.attempts + 1, false⟩ : Waiter) ∈ (resume s id).waiters :=
+  Pool.woken_empty hfind hb hst hp he ha
+
+/-- Local progress (`C16_partial`): a connection released into (or connected for) a block
+    whose queue is `r :: rest` wakes exactly the head `r` and stays on the stack for it.
+    Together with `no_lost_wakeup` and `woken_empty` this is all the liveness the code has:
+    a sleeping waiter is served by the next connection that reaches its block, unless that
+    connection is taken away again before the waiter resumes. -/
+theorem C16_partial (s : State) (u c r : Nat) (rest : List Nat) (b : Block) (hb : s.find u = some b)
+    (hq : b.queue = r :: rest) (w : Waiter) (hw : w ∈ s.waiters) (hid : w.id = r) :
+    ({ w with st := .woken } : Waiter) ∈ (blockRelease s u c).waiters ∧
+    ∃ b', (blockRelease s u c).find u = some b' ∧ b'.stack = b.stack ++ [c] ∧ b'.queue = rest :=
+  release_wakes hb hq w hw hid
+
+/-
+The full statement — NOT a theorem, refuted below:
+
+  theorem C16 (fair run: every enabled internal event eventually happens, holders release,
+               connects eventually succeed, timers keep firing; any number of blocks) :
+      every `acq r d` is eventually followed by a state in which `r` holds a connection of `d`
+
+`not_stuck` (a blocked request ⇒ some internal event is enabled that changes the state, or
+some holder exists) is refuted by the same witnesses: in a `Dead` state nothing is in flight,
+nobody holds a connection, all waiters sleep, and the only enabled events — `_tick` and
+`_run_gc` — are the identity for EVERY environment.
+-/
+
+def okEv : Ev → Bool
+  | .prune _ _ => false
+  | .pall => false
+  | _ => true
+
+theorem noPrune_of_ok {e : Ev} (h : okEv e = true) : Prims.NoPruneEv e := by
+  cases e with
+  | prune p n => simp [okEv] at h
+  | pall => simp [okEv] at h
+  | _ => exact ⟨fun _ _ => by simp, by simp⟩
+
+theorem noPrune_all {evs : List (Env × Ev)} (h : evs.all (fun x => okEv x.2) = true) :
+    ∀ x ∈ evs, Prims.NoPruneEv x.2 :=
+  fun x hx => noPrune_of_ok (List.all_eq_true.mp h x hx)
+
+/-- Counterexample 1 (GC race, `max = 1`, two databases, no fault): a fair history — every
+    event of it is enabled (`err = none`) — ends in a `Dead` state with a sleeping request and
+    all capacity free. -/
+theorem C16_counterexample_gc_race :
+    ∃ evs : List (Env × Ev), (∀ x ∈ evs, Prims.NoPruneEv x.2) ∧ Dead (run (init 1) evs) ∧
+      (run (init 1) evs).cur = 0 :=
+  ⟨gcRace, noPrune_all (by decide), gcRace_end ▸ gcRaceEnd_dead, gcRace_end ▸ rfl⟩
+
+/-- Counterexample 2 (a `_tick` in the loop iteration of two `release()`s shrinks the block —
+    discarding its whole idle stack — before the woken waiter resumes; `max = 3`, no fault):
+    again a `Dead` state with a sleeping request and an empty pool. -/
+theorem C16_counterexample_tick_shrink :
+    ∃ evs : List (Env × Ev), (∀ x ∈ evs, Prims.NoPruneEv x.2) ∧ Dead (run (init 3) evs) ∧
+      (run (init 3) evs).cur = 0 :=
+  ⟨tickShrink, noPrune_all (by decide), tickShrink_end ▸ tickShrinkEnd_dead, tickShrink_end ▸ rfl⟩
+
+/-! ### Non-vacuity -/
+
+example : InvQ (run (init 1) gcRace) := (waiters_consistent 1 gcRace (noPrune_all (by decide))).2
+
+/-- a state in which `Inv₂` is not vacuous: a sleeping waiter, an idle connection, a woken waiter -/
+def exEvs : List (Env × Ev) :=
+  [({}, .acq 0 0), ({}, .acq 1 0), ({}, .start 0), ({}, .cdone 0 true false)]
+
+example : (run (init 1) exEvs).blocks.any (fun b => !b.queue.isEmpty && !b.stack.isEmpty) = true ∧
+    InvQ (run (init 1) exEvs) :=
+  ⟨by decide, (waiters_consistent 1 _ (noPrune_all (by decide))).2⟩
+
 end EdbVerif.C16
